@@ -9,4 +9,4 @@ find $D/harness -name Cargo.toml | xargs sed -i "s|\"/repo/crates/|\"$D/repo/cra
 [ -f $D/last ] && for f in $(cat $D/last); do touch "$D/repo/$f"; done
 grep '^+++ b/' $P | sed 's|^+++ b/||' > $D/last
 ( cd $D/repo && patch -p1 --no-backup-if-mismatch < $P ) || { echo "PATCH DID NOT APPLY"; exit 3; }
-for c in "$@"; do VERIF_PRIVATE=$D VERIF_REPO=$D/repo /verif/bin/check $c quick 2>&1 | grep -E "VIOLATION|held|TOOL-ERROR|KNOWN" ; done
+for c in "$@"; do VERIF_PRIVATE=$D VERIF_REPO=$D/repo /verif/bin/check $c quick 2>&1 | grep -E "VIOLATION|held|TOOL-ERROR|KNOWN|Error|rror:" | cut -c1-400 ; done
